@@ -460,7 +460,8 @@ class SqlImpl(TableImpl):
                 query.limit = nd.n
                 query.offset = nd.offset
             else:
-                query.limit = min(abs(query.limit - nd.offset), nd.n)
+                # rows [offset, offset + n) of the rows that the previous slice kept
+                query.limit = min(max(query.limit - nd.offset, 0), nd.n)
                 query.offset += nd.offset
 
         elif isinstance(nd, verbs.GroupBy):
